@@ -19,11 +19,14 @@ import (
 	"encoding/hex"
 	"fmt"
 	"runtime"
+	"sort"
+	"strings"
 	"sync"
 	"time"
 
 	"git.metabarcoding.org/obitools/obitools4/obitools4/pkg/obiformats"
 	"git.metabarcoding.org/obitools/obitools4/obitools4/pkg/obiiter"
+	"git.metabarcoding.org/obitools/obitools4/obitools4/pkg/obingslibrary"
 	"git.metabarcoding.org/obitools/obitools4/obitools4/pkg/obiseq"
 	"git.metabarcoding.org/obitools/obitools4/obitools4/pkg/obitools/obiannotate"
 	"git.metabarcoding.org/obitools/obitools4/obitools4/pkg/obitools/obipairing"
@@ -43,7 +46,10 @@ type c05config struct {
 }
 
 type c05case struct {
-	Cmd     string      `json:"cmd"` // convert | complement | grep | annotlen | count | pairing
+	Cmd     string      `json:"cmd"` // convert | complement | grep | annotlen | count | pairing, and the library stages of round 3:
+	// divide | concat | pool | filterempty | condworker | workerpipe | fullfile | batchover
+	Cuts    []int       `json:"cuts,omitempty"` // concat / pool: the input is cut in pieces after these record numbers, one reader per piece
+	NGS     string      `json:"ngs,omitempty"`  // multiplex: the tag list (CSV with @param lines)
 	Input   string      `json:"input"`
 	Mates   string      `json:"mates,omitempty"`
 	Inv     bool        `json:"inv"`
@@ -126,13 +132,107 @@ func c05identity(s *obiseq.BioSequence) (obiseq.BioSequenceSlice, error) {
 	return obiseq.BioSequenceSlice{s}, nil
 }
 
+// the input text cut in pieces at record boundaries (4 lines per record)
+func c05pieces(text string, cuts []int) []string {
+	lines := strings.SplitAfter(text, "\n")
+	if n := len(lines); n > 0 && lines[n-1] == "" {
+		lines = lines[:n-1]
+	}
+	nrec := len(lines) / 4
+	var out []string
+	prev := 0
+	for _, c := range append(append([]int{}, cuts...), nrec) {
+		if c > nrec {
+			c = nrec
+		}
+		if c < prev {
+			c = prev
+		}
+		out = append(out, strings.Join(lines[4*prev:4*c], ""))
+		prev = c
+	}
+	return out
+}
+
+// the records of a FASTQ text sorted (the output of an order-free stage is judged as a multiset)
+func c05sortRecords(b []byte) []byte {
+	lines := bytes.SplitAfter(b, []byte("\n"))
+	var recs []string
+	for i := 0; i+3 < len(lines); i += 4 {
+		recs = append(recs, string(bytes.Join(lines[i:i+4], nil)))
+	}
+	sort.Strings(recs)
+	return []byte(strings.Join(recs, ""))
+}
+
+func c05write(it obiiter.IBioSequence, writers int) (*c05sink, error) {
+	sink := &c05sink{done: make(chan struct{})}
+	res, err := obiformats.WriteFastq(it, sink, obiformats.OptionsParallelWorkers(writers), obiformats.OptionCloseFile())
+	if err != nil {
+		return nil, err
+	}
+	res.Consume()
+	<-sink.done
+	return sink, nil
+}
+
+func (s *c05sink) bytes() []byte {
+	s.mu.Lock()
+	defer s.mu.Unlock()
+	return append([]byte{}, s.buf.Bytes()...)
+}
+
 // one execution of the pipeline; returns the bytes written (count: the CSV lines of obicount)
 func c05once(c c05case, k c05config) ([]byte, error) {
 	ropts := []obiformats.WithOption{obiformats.OptionsParallelWorkers(k.Readers), obiformats.OptionsBatchSize(k.Batch),
 		obiformats.OptionsSource("verif")}
+	switch c.Cmd {
+	case "concat", "pool":
+		// one reader + rebatch + worker pool per piece (batches reach Concat / Pool in arrival order), then the real Concat / Pool
+		var its []obiiter.IBioSequence
+		for _, piece := range c05pieces(c.Input, c.Cuts) {
+			pit, err := obiformats.ReadFastq(bytes.NewReader([]byte(piece)), ropts...)
+			if err != nil {
+				return nil, err
+			}
+			its = append(its, pit.Rebatch(k.Batch).MakeIWorker(c05identity, true, k.Workers))
+		}
+		var it obiiter.IBioSequence
+		if c.Cmd == "concat" {
+			it = its[0].Concat(its[1:]...)
+		} else {
+			it = its[0].Pool(its[1:]...)
+		}
+		if k.Stage2 > 0 {
+			it = it.MakeIWorker(c05identity, true, k.Stage2)
+		}
+		sink, err := c05write(it, k.Writers)
+		if err != nil {
+			return nil, err
+		}
+		obiiter.WaitForLastPipe()
+		if c.Cmd == "pool" {
+			return c05sortRecords(sink.bytes()), nil
+		}
+		return sink.bytes(), nil
+	case "fullfile":
+		ropts = append(ropts, obiformats.OptionsFullFileBatch(true))
+	}
 	it, err := obiformats.ReadFastq(bytes.NewReader([]byte(c.Input)), ropts...)
 	if err != nil {
 		return nil, err
+	}
+	if c.Cmd == "fullfile" {
+		// CompleteFileIterator / Load: the whole file as ONE batch, in input order whatever the parser workers did
+		if k.Workers > 1 {
+			it = it.MakeIWorker(c05identity, true, k.Workers)
+		}
+		sink, err := c05write(it, k.Writers)
+		if err != nil {
+			return nil, err
+		}
+		obiiter.WaitForLastPipe()
+		return sink.bytes(), nil
 	}
 	if c.Cmd == "pairing" {
 		rv, err := obiformats.ReadFastq(bytes.NewReader([]byte(c.Mates)), ropts...)
@@ -166,6 +266,61 @@ func c05once(c c05case, k c05config) ([]byte, error) {
 		v, r, s := it.Count(true)
 		obiiter.WaitForLastPipe()
 		return []byte(fmt.Sprintf("entites,n\nvariants,%d\nreads,%d\nsymbols,%d\n", v, r, s)), nil
+	case "divide":
+		// DivideOn behind a worker pool (batches arrive in any order): the two streams are written at the same time
+		yes, no := it.MakeIWorker(c05identity, true, k.Workers).DivideOn(c05predicate(c), k.Batch)
+		var sy, sn *c05sink
+		var ey, en error
+		var wg sync.WaitGroup
+		wg.Add(2)
+		go func() { defer wg.Done(); sy, ey = c05write(yes, k.Writers) }()
+		go func() { defer wg.Done(); sn, en = c05write(no, k.Writers) }()
+		wg.Wait()
+		obiiter.WaitForLastPipe()
+		if ey != nil {
+			return nil, ey
+		}
+		if en != nil {
+			return nil, en
+		}
+		return append(append(sy.bytes(), []byte("\x00DISCARDED\x00\n")...), sn.bytes()...), nil
+	case "filterempty":
+		// a slice worker that drops the rejected records (leaving empty batches), then FilterEmpty
+		p := c05predicate(c)
+		w := func(sl obiseq.BioSequenceSlice) (obiseq.BioSequenceSlice, error) {
+			out := obiseq.MakeBioSequenceSlice()
+			for _, s := range sl {
+				if p(s) {
+					out = append(out, s)
+				}
+			}
+			return out, nil
+		}
+		it = it.MakeISliceWorker(w, false, k.Workers).FilterEmpty()
+		if k.Stage2 > 0 {
+			it = it.MakeIWorker(c05identity, true, k.Stage2)
+		}
+	case "condworker":
+		it = it.MakeIConditionalWorker(c05predicate(c), obiseq.ReverseComplementWorker(true), true, k.Workers)
+	case "workerpipe":
+		it = it.Pipe(obiiter.WorkerPipe(obiannotate.AddSeqLengthWorker(), false, k.Workers))
+	case "batchover":
+		// Load (batches sorted back in order) then IBatchOver: the in-memory slice served again in batches
+		src, all := it.MakeIWorker(c05identity, true, k.Workers).Load()
+		it = obiiter.IBatchOver(src, all, k.Batch)
+		if k.Stage2 > 0 {
+			it = it.MakeIWorker(c05identity, true, k.Stage2)
+		}
+	case "multiplex":
+		// the barcode extraction of obimultiplex (errors kept), one library object shared by all the workers as in the command
+		lib, err := obiformats.ReadNGSFilter(strings.NewReader(c.NGS))
+		if err != nil {
+			return nil, err
+		}
+		w := lib.ExtractMultiBarcodeSliceWorker(obingslibrary.OptionAllowedMismatches(2), obingslibrary.OptionAllowedIndel(false),
+			obingslibrary.OptionUnidentified(""), obingslibrary.OptionDiscardErrors(false),
+			obingslibrary.OptionParallelWorkers(k.Workers), obingslibrary.OptionBatchSize(k.Batch))
+		it = it.MakeISliceWorker(w, false, k.Workers)
 	case "pairing":
 		it = obipairing.IAssemblePESequencesBatch(it, 2.0, 1.0, 5, c.Lmin, 0.9, true, true, true, k.Workers)
 	default:
